@@ -86,6 +86,17 @@ def main(argv):
         return 1
     props = PROPS if args[0] == "all" else [args[0]]
     worst = 0
+    # a run that does not finish is an analyser problem, never a verdict
+    try:
+        import signal
+
+        def _timeout(signum, frame):
+            print(f"ANALYSIS-BROKEN: property={props[0] if len(props) == 1 else 'all'} analysis did not finish within the time budget; cannot decide")
+            os._exit(2)
+        signal.signal(signal.SIGALRM, _timeout)
+        signal.alarm(int(os.environ.get("PRSA_TIME_BUDGET", "900" if tier == "quick" else "3000")) * max(1, len(props) // 4))
+    except (ImportError, ValueError, AttributeError):
+        pass
     for prop in props:
         if prop not in PROPS:
             print(f"unknown property {prop}")
